@@ -26,7 +26,8 @@ func underlying(t types.Type) types.Type { return types.Unalias(t).Underlying() 
 func sLen(s Term) Term { return app(SInt, "s-len", s) }
 func sCap(s Term) Term { return app(SInt, "s-cap", s) }
 func sArr(s Term) Term { return app(SInt, "s-arr", s) }
-func sOff(s Term) Term { return app(SInt, "s-off", s) }
+// All slices have offset 0 in this model (A8/A9): re-slicing with a non-zero low bound copies.
+func sOff(s Term) Term { return intLit(0) }
 func mkSlice(arr, off, ln, cp Term) Term {
 	return app(SSlice, "mk-slice", arr, off, ln, cp)
 }
@@ -82,7 +83,18 @@ func (x *Exec) execInstr(fr *Frame, b *ssa.BasicBlock, st *State, ins ssa.Instru
 		return false
 
 	case *ssa.BinOp:
-		fr.regs[in] = x.binop(fr, st, in)
+		r := x.binop(fr, st, in)
+		// integer arithmetic results become constants with a defining equation (not macros):
+		// index terms then have the shape (+ offset c), which quantifier patterns can match.
+		if r.Sort == SInt && vc.noName == 0 && strings.HasPrefix(r.S, "(") {
+			switch in.Op {
+			case token.ADD, token.SUB, token.MUL:
+				c := vc.fresh("ar", SInt)
+				vc.asserts = append(vc.asserts, "(= "+c.S+" "+r.S+")")
+				r = c
+			}
+		}
+		fr.regs[in] = r
 		return false
 
 	case *ssa.FieldAddr:
@@ -534,7 +546,25 @@ func (x *Exec) sliceOp(fr *Frame, st *State, in *ssa.Slice) {
 			mx = sCap(s)
 		}
 		x.safety(fr, "slice", snippetOf(in), st, and(le(intLit(0), lo), le(lo, hi), le(hi, mx), le(mx, sCap(s))), in.Pos())
-		fr.regs[in] = vc.name("sl", mkSlice(sArr(s), add(sOff(s), lo), sub(hi, lo), sub(mx, lo)))
+		if lo.S == "0" {
+			fr.regs[in] = vc.name("sl", mkSlice(sArr(s), intLit(0), hi, mx))
+		} else {
+			// non-zero low bound: the view is copied into a fresh array (aliasing with s is lost: A9)
+			x.note("re-slice with non-zero low bound in %s modelled as a copy (writes through it are not seen by the original)", shortFn(fr.fn))
+			et := xt.Elem()
+			h := vc.arrHeap(et)
+			as := arraySort(SInt, vc.sortOf(et))
+			oldA := vc.name("rs", sel(x.heap(st, h), sArr(s), as))
+			na := vc.fresh("rsl", as)
+			if vc.noName == 0 {
+				for j := int64(0); j < 4; j++ {
+					vc.assert(eq(sel(na, intLit(j), vc.sortOf(et)), sel(oldA, add(lo, intLit(j)), vc.sortOf(et))))
+				}
+				vc.assert(Term{fmt.Sprintf("(forall ((i Int)) (! (=> (<= 0 i) (= (select %s i) (select %s (+ %s i)))) :pattern ((select %s i))))", na.S, oldA.S, lo.S, na.S), SBool})
+			}
+			ref := x.alloc(st, types.NewArray(et, 0), na)
+			fr.regs[in] = vc.name("sl", ite(eq(sArr(s), intLit(0)), Term{"(mk-slice 0 0 0 0)", SSlice}, mkSlice(ref, intLit(0), sub(hi, lo), sub(mx, lo))))
+		}
 		_ = xt
 	case *types.Pointer:
 		at, ok := isArrayType(xt.Elem())
@@ -557,7 +587,10 @@ func (x *Exec) sliceOp(fr *Frame, st *State, in *ssa.Slice) {
 			panic(engErr("slicing an array that is not a heap object in %s", fr.fn.Name()))
 		}
 		x.safety(fr, "slice", snippetOf(in), st, and(le(intLit(0), lo), le(lo, hi), le(hi, mx), le(mx, n)), in.Pos())
-		fr.regs[in] = vc.name("sl", mkSlice(base.ptr, lo, sub(hi, lo), sub(mx, lo)))
+		if lo.S != "0" {
+			panic(engErr("slicing an array with a non-zero low bound in %s", fr.fn.Name()))
+		}
+		fr.regs[in] = vc.name("sl", mkSlice(base.ptr, intLit(0), hi, mx))
 	default:
 		panic(engErr("slice of %s", in.X.Type()))
 	}
